@@ -22,7 +22,7 @@ def plan(pid, tier, seed):
         "needs_coca": True,
         "mc": mc,
         "gen": [],
-        "rand": (300 if quick else 8000),
+        "rand": (900 if quick else 12000),
         "trace": TRACE,
     }
 
